@@ -60,7 +60,7 @@ TDOPT = [None, 'same-volume', 'other-volume', 'same-volume-existing']
 FALLBACK = [(False, None), (True, None), (False, '1'), (True, '1'), (True, '0'), (True, 'yes')]  # enabled only by the option AND the value 1
 
 
-FIRST = ['alone', 'after-a-file-of-the-home-volume', 'after-a-file-of-another-volume', 'uid-dir-left-by-an-earlier-run']
+FIRST = ['alone', 'after-a-file-of-the-home-volume', 'after-a-file-of-another-volume', 'uid-dir-left-by-an-earlier-run', 'after-an-entry-reached-through-it']
 
 
 def scenario(where, top, alt, hk, uid, tdo, fb, first=0):
@@ -159,6 +159,9 @@ def scenario(where, top, alt, hk, uid, tdo, fb, first=0):
         pre = ('/v/n/zfirst' if fvol != '/v/n' else '/v/zfirst')
         nodes.append(W.f(pre, 'FIRST', 0o644, 961))
         before_it = [pre]
+    elif FIRST[first] == 'after-an-entry-reached-through-it' and w.startswith('symlink-to-dir-on-'):
+        # `trash-put link/in link/`: the first argument lives on the volume the link points into, the link itself does not
+        before_it = [arg.rstrip('/') + '/in']
     world = W.W(mounts=mounts, cwd='/', nodes=nodes)
     step = C('put', args + ['--'] + before_it + [arg], env, uid=UIDS[uid], cwd='/')
     return world, step, env, fdir, fvol, tdpath, (hf and ev == '1')
@@ -271,10 +274,10 @@ def w_main(where: int, top: int, alt: int, hk: int, uid: int) -> str:
 def w_second(where: int, top: int, alt: int, hk: int, first: int) -> str:
     """
     pre: PARTITION is None or where == PARTITION
-    pre: 0 <= where < 8 and 0 <= top < 3 and 0 <= alt < 5 and 0 <= hk < 7 and 1 <= first <= 2
+    pre: 0 <= where < 8 and 0 <= top < 3 and 0 <= alt < 5 and 0 <= hk < 7 and 0 <= first < 3
     post: _ == ''
     """
-    return _case(rt.sel(where, 8), rt.of([0, 1, 2], top), rt.sel(alt, 5), rt.sel(hk, 7), 0, 0, 0, rt.sel(first, 3))
+    return _case(rt.sel(where, 8), rt.of([0, 1, 2], top), rt.sel(alt, 5), rt.sel(hk, 7), 0, 0, 0, rt.of([1, 2, 4], first))
 
 
 def w_left(where: int, top: int, alt: int, hk: int) -> str:
@@ -367,7 +370,7 @@ def obligations(tier):
     ]
     obs.append(CH('W_second_argument_independent_of_the_first', MOD, 'w_second', timeout=1200, partitions=list(range(8)), engine='W', regime='selector',
                   encodes=K.PUT_FUNCS, stubs=K.STUBS,
-                  bounds='one invocation with two arguments: a file of the home volume or of another volume first, then the entry; 8 locations x 3 .Trash states x 5 .Trash-uid states x 7 home variants x 2 first arguments'))
+                  bounds='one invocation with two arguments: a file of the home volume or of another volume first, then the entry; 8 locations x 3 .Trash states x 5 .Trash-uid states x 7 home variants x 3 first arguments (a file of the home volume | of another volume | an entry reached THROUGH the link that is named next)'))
     obs.append(CH('W_uid_dir_left_by_an_earlier_run', MOD, 'w_left', timeout=1200, partitions=list(range(8)), engine='W', regime='selector',
                   encodes=K.PUT_FUNCS, stubs=K.STUBS,
                   bounds='$topdir/.Trash/$uid/{files,info} exist already (made when .Trash was still acceptable): 8 locations x all 9 .Trash states x 5 .Trash-uid states x 7 home variants'))
